@@ -68,6 +68,9 @@ def real_to_complex(z, axis=0):
 @lru_cache(maxsize=1024)
 def next_fast_len(N):
     """Returns smallest 7-smooth number >= N."""
+    if isinstance(N, np.integer):
+        N = int(N)  # fixed-width arithmetic (2 * N) would overflow
+
     if N <= 10:
         return N
 
@@ -100,6 +103,9 @@ def next_fast_len(N):
 @lru_cache(maxsize=1024)
 def prev_fast_len(N):
     """Returns largest 7-smooth number <= N."""
+    if isinstance(N, np.integer):
+        N = int(N)
+
     if N <= 10:
         return N
 
